@@ -3,6 +3,8 @@ package main
 import (
 	"fmt"
 	"go/ast"
+	"go/constant"
+	"go/token"
 	"go/types"
 	"strings"
 )
@@ -57,6 +59,7 @@ func checkC22(c *Check) {
 	// that is read (for a layout decision, say) but never written out is gone after the first pass, so the second pass
 	// decides differently and the text changes.
 	tl2ConsultedCommentsArePrinted(c, a)
+	tl2AliasMarkerPrinted(c, a.r)
 	printerOrderFollowsParserRule(c, a.r, a.pkg, tl2Family, "tl2-printer/field-order-follows-parser")
 	c.Floor("tl2-printer/field-order-follows-parser", 5)
 }
@@ -194,4 +197,161 @@ func tl2ConsultedCommentsArePrinted(c *Check, a *astCoverage) {
 		c.Ob("tl2-printer/consulted-comment-is-printed", f, printed[f], "", fmt.Sprintf("read by %s (a function reachable from TL2File.Print); written to the output somewhere: %v", readBy[f], printed[f]))
 	}
 	c.Floor("tl2-printer/consulted-comment-is-printed", 3)
+}
+
+// tl2AliasMarkerPrinted: the TL2 parser sets TL2TypeDefinition.IsTypeAlias exactly when it consumed `<=>`; the formatter
+// must therefore have written that token on every path on which it prints the alias target of a type definition
+// (declarations and function results alike). Conditions on IsAlias()/IsTypeAlias are taken as true on those paths;
+// all other conditions are explored both ways.
+func tl2AliasMarkerPrinted(c *Check, r *repoCtx) {
+	n := 0
+	for _, name := range sortedKeys(r.funcs) {
+		fi := r.funcs[name]
+		if fi.Decl.Body == nil || fi.Decl.Recv == nil || !strings.HasPrefix(name, "internal/tlast.") {
+			continue
+		}
+		info := fi.Pkg.TypesInfo
+		if len(fi.Decl.Recv.List) != 1 || len(fi.Decl.Recv.List[0].Names) != 1 {
+			continue
+		}
+		recv := info.Defs[fi.Decl.Recv.List[0].Names[0]]
+		if recv == nil || namedStructName(recv.Type()) != "TL2TypeDefinition" {
+			continue
+		}
+		isAliasCond := func(e ast.Expr) (known bool, val bool) {
+			neg := false
+			e = ast.Unparen(e)
+			if u, ok := e.(*ast.UnaryExpr); ok && u.Op == token.NOT {
+				neg, e = true, ast.Unparen(u.X)
+			}
+			switch x := e.(type) {
+			case *ast.CallExpr:
+				if sel, ok := x.Fun.(*ast.SelectorExpr); ok && sel.Sel.Name == "IsAlias" {
+					if id, ok := sel.X.(*ast.Ident); ok && info.Uses[id] == recv {
+						return true, !neg
+					}
+				}
+			case *ast.SelectorExpr:
+				if x.Sel.Name == "IsTypeAlias" {
+					if id, ok := x.X.(*ast.Ident); ok && info.Uses[id] == recv {
+						return true, !neg
+					}
+				}
+			}
+			return false, false
+		}
+		writesMarker := func(st ast.Stmt) bool {
+			found := false
+			ast.Inspect(st, func(x ast.Node) bool {
+				if call, ok := x.(*ast.CallExpr); ok {
+					for _, a := range call.Args {
+						if tv, ok := info.Types[a]; ok && tv.Value != nil && tv.Value.Kind() == constant.String && strings.Contains(constant.StringVal(tv.Value), "<=>") {
+							found = true
+						}
+					}
+				}
+				return true
+			})
+			return found
+		}
+		printsAlias := func(st ast.Stmt) token.Pos {
+			p := token.NoPos
+			ast.Inspect(st, func(x ast.Node) bool {
+				if call, ok := x.(*ast.CallExpr); ok {
+					if sel, ok := call.Fun.(*ast.SelectorExpr); ok {
+						if inner, ok := sel.X.(*ast.SelectorExpr); ok && inner.Sel.Name == "TypeAlias" {
+							if id, ok := inner.X.(*ast.Ident); ok && info.Uses[id] == recv {
+								p = call.Pos()
+							}
+						}
+					}
+				}
+				return true
+			})
+			return p
+		}
+		bad := token.NoPos
+		var walk func(list []ast.Stmt, emitted bool) bool
+		walk = func(list []ast.Stmt, emitted bool) bool {
+			for _, st := range list {
+				switch st := st.(type) {
+				case *ast.IfStmt:
+					known, val := isAliasCond(st.Cond)
+					var elseList []ast.Stmt
+					switch e := st.Else.(type) {
+					case *ast.BlockStmt:
+						elseList = e.List
+					case *ast.IfStmt:
+						elseList = []ast.Stmt{e}
+					}
+					switch {
+					case known && val:
+						emitted = walk(st.Body.List, emitted)
+					case known && !val:
+						emitted = walk(elseList, emitted)
+					default:
+						a := walk(st.Body.List, emitted)
+						b := walk(elseList, emitted)
+						emitted = a && b
+					}
+				case *ast.SwitchStmt:
+					// tag-less switch: clauses in order; an IsAlias clause is certainly taken, later clauses are not
+					res, first := true, true
+					decided := false
+					for _, cc := range st.Body.List {
+						cl := cc.(*ast.CaseClause)
+						if decided {
+							break
+						}
+						takes := true
+						for _, e := range cl.List {
+							if known, val := isAliasCond(e); known {
+								if val {
+									decided = true
+								} else {
+									takes = false
+								}
+							}
+						}
+						if !takes {
+							continue
+						}
+						r := walk(cl.Body, emitted)
+						if first {
+							res, first = r, false
+						} else {
+							res = res && r
+						}
+					}
+					if !first {
+						emitted = res
+					}
+				case *ast.BlockStmt:
+					emitted = walk(st.List, emitted)
+				case *ast.ForStmt, *ast.RangeStmt:
+					// the body may not run
+				default:
+					if p := printsAlias(st); p != token.NoPos {
+						n++
+						if !emitted && bad == token.NoPos {
+							bad = p
+						}
+					}
+					if writesMarker(st) {
+						emitted = true
+					}
+				}
+			}
+			return emitted
+		}
+		walk(fi.Decl.Body.List, false)
+		if n > 0 {
+			at := r.pos(fi.Decl.Pos())
+			if bad != token.NoPos {
+				at = r.pos(bad)
+			}
+			c.Ob("tl2-printer/alias-marker-precedes-alias-target", fi.Name(), bad == token.NoPos, at, "on every path on which the alias target of a type definition is printed, a literal containing `<=>` was written before (declaration and function-result positions)")
+		}
+	}
+	c.Floor("tl2-printer/alias-marker-precedes-alias-target", 1)
 }
